@@ -98,6 +98,18 @@ def check(ctx):
         if c.is_("core::option::Option::unwrap_or") and len(c.args) > 1:
             dflt = None
     if dflt is None or dflt.k != "str":
+        # evaluation: get_type() of a problem document without a `type` member, whatever the code looks like
+        try:
+            from ..absint import NONE as _N0, Val as _V0, struct_val as _sv0
+            HAE0 = "acmed::acme_proto::structs::error::HttpApiError"
+            tf0 = [f for f in prog.adt_fields(HAE0) if f in ("error_type", "type", "type_")] or [f for f in prog.adt_fields(HAE0) if "type" in f]
+            r0 = run(gt, {1: _V0("ref", _sv0(prog, HAE0, {tf0[0]: _N0}))}, None, max_steps=20000, follow=lambda cs: (cs.name or "").startswith("acmed::acme_proto::structs::error::"))
+            d0 = r0.ret.deref() if r0.kind == "return" and r0.ret is not None else None
+            if d0 is not None and d0.k == "str":
+                dflt = d0
+        except Exception:
+            pass
+    if dflt is None or dflt.k != "str":
         ctx.fail(R2, "%s:%s" % (gt.file, gt.line), "default of HttpApiError::get_type could not be evaluated (%r)" % (dflt,), ["get_type", "default"])
     else:
         r = run(fb, {1: dflt})
@@ -111,6 +123,7 @@ def check(ctx):
     HAE = "acmed::acme_proto::structs::error::HttpApiError"
     fs_ = prog.adt_fields(HAE)
     tfield = [f for f in fs_ if f in ("error_type", "type", "type_")] or [f for f in fs_ if "type" in f]
+    evaluated_class = False
     if tfield and "status" in fs_:
         for ty in (None, "about:blank", "urn:ietf:params:acme:error:badNonce", "urn:ietf:params:acme:error:unauthorized", "urn:example:other"):
             base_ = None
@@ -130,6 +143,7 @@ def check(ctx):
                     break
                 if st_ is None:
                     base_ = got
+                    evaluated_class = True
                     want = rows.get(ty, "Unknown") if ty is not None else "Unknown"
                     ctx.require(R2, got == want, "%s:%s" % (gat.file, gat.line), "problem document type %r -> %s (expected %s)" % (ty, got, want), ["get_acme_type", "evaluated", str(ty)])
                 else:
@@ -137,7 +151,8 @@ def check(ctx):
                                 ["get_acme_type", "status-independent", str(ty), str(st_)])
     ok = bool(gat.calls_to("acmed::acme_proto::structs::error::HttpApiError::get_type")) and any(
         c.res and c.res.endswith("::into") or (c.res == FROM) for c in gat.calls)
-    ctx.require(R2, ok, "%s:%s" % (gat.file, gat.line), "get_acme_type = get_type().into()", ["get_acme_type", "wiring"])
+    if not evaluated_class:
+        ctx.require(R2, ok, "%s:%s" % (gat.file, gat.line), "get_acme_type = get_type().into()", ["get_acme_type", "wiring"])
 
     # R3
     R3 = ctx.rule("R3", "bounded transmissions: post retries in `for _ in 0..DEFAULT_HTTP_FAIL_NB_RETRY` (<=10), one send per iteration; polling in `for _ in 0..DEFAULT_POOL_NB_TRIES` (<=20), one POST per iteration")
